@@ -678,6 +678,25 @@ static Token *subst(Token *tok, MacroArg *args) {
   return head.next;
 }
 
+// Evaluate the ## operators in the replacement list of an object-like
+// macro (which has no parameters to substitute).
+static Token *paste_objlike(Token *tok) {
+  Token head = {};
+  Token *cur = &head;
+
+  for (; tok->kind != TK_EOF; tok = tok->next) {
+    if (equal(tok, "##") && cur != &head && tok->next->kind != TK_EOF) {
+      *cur = *paste(cur, tok->next);
+      tok = tok->next;
+      continue;
+    }
+    cur = cur->next = copy_token(tok);
+  }
+
+  cur->next = tok;
+  return head.next;
+}
+
 // The first token of a macro expansion takes the place of the macro
 // token on its line. If the expansion is empty, `first` is the token
 // that follows the invocation: it keeps its own position (it may
@@ -719,7 +738,7 @@ static bool expand_macro(Token **rest, Token *tok) {
   // Object-like macro application
   if (m->is_objlike) {
     Hideset *hs = hideset_union(tok->hideset, new_hideset(m->name));
-    Token *body = add_hideset(m->body, hs);
+    Token *body = add_hideset(paste_objlike(m->body), hs);
     for (Token *t = body; t->kind != TK_EOF; t = t->next)
       t->origin = tok;
     *rest = append(body, tok->next);
